@@ -207,3 +207,60 @@ package federation
 //@ ensures [C17] msg.Retained ==> (forall n string :: has(f.peers, n) ==> f.peers[n].queue.$qadds == old(f.peers[n].queue.$qadds) + 1)
 //@ ensures [C17] forall n string :: has(f.peers, n) ==> old(f.peers[n].queue.$qadds) <= f.peers[n].queue.$qadds && f.peers[n].queue.$qadds <= old(f.peers[n].queue.$qadds) + 1
 //@ ensures [C17] !msg.Retained ==> (forall n string :: has(f.peers, n) ==> f.peers[n].queue.$qadds == old(f.peers[n].queue.$qadds) + ((has(sent, n) || has(nonShared, n)) ? 1 : 0))
+
+// ---------------------------------------------------------------------------
+// C17 — what the other nodes are told about this node's subscriptions. localSubStore counts, per full topic name, the
+// local clients that hold it ("topics"), and records per client what it holds ("index"). A Subscribe event goes out
+// when the count of a topic becomes 1, an Unsubscribe event when it becomes 0 — so a peer has the topic in its
+// federation tree exactly while some local client holds it. A topic without an entry in "topics" counts as 0.
+//@ spec func holds(l *localSubStore, c string, t string) bool = has(l.index, c) && has(l.index[c], t)
+//@ spec func lsOK(l *localSubStore) bool = l != nil && l.index != nil && l.topics != nil && (forall c string :: has(l.index, c) ==> l.index[c] != nil) && (forall a string, b string :: has(l.index, a) && has(l.index, b) && a != b ==> l.index[a] != l.index[b]) && (forall t string :: has(l.topics, t) ==> l.topics[t] >= 1)
+
+//@ func (*localSubStore).decTopicCounterLocked
+//@ props C17
+//@ requires [C17] lsOK(l)
+//@ modifies map(l.topics)
+//@ ensures [C17] lsOK(l)
+//@ ensures [C17] old(has(l.topics, topicName)) && old(l.topics[topicName]) > 1 ==> has(l.topics, topicName) && l.topics[topicName] == old(l.topics[topicName]) - 1
+//@ ensures [C17] !(old(has(l.topics, topicName)) && old(l.topics[topicName]) > 1) ==> !has(l.topics, topicName)
+//@ ensures [C17] forall t string :: t != topicName ==> has(l.topics, t) == old(has(l.topics, t)) && l.topics[t] == old(l.topics[t])
+
+// subscribeLocked: a topic the client already holds changes nothing; otherwise the client holds it from now on and the
+// count goes up by one; "new" exactly when it is the first holder.
+//@ func (*localSubStore).subscribeLocked
+//@ props C17
+//@ requires [C17] lsOK(l)
+//@ waive overflow
+//@ modifies map(l.index), map(l.topics), allmaps(string, struct{})
+//@ ensures [C17] lsOK(l) && holds(l, clientID, topicName)
+//@ ensures [C17] old(holds(l, clientID, topicName)) ==> !new && (forall t string :: has(l.topics, t) == old(has(l.topics, t)) && l.topics[t] == old(l.topics[t]))
+//@ ensures [C17] !old(holds(l, clientID, topicName)) ==> has(l.topics, topicName) && new == !old(has(l.topics, topicName)) && (old(has(l.topics, topicName)) && old(l.topics[topicName]) < 1000000000000 ==> l.topics[topicName] == old(l.topics[topicName]) + 1) && (!old(has(l.topics, topicName)) ==> l.topics[topicName] == 1)
+//@ ensures [C17] forall t string :: t != topicName ==> has(l.topics, t) == old(has(l.topics, t)) && l.topics[t] == old(l.topics[t])
+//@ ensures [C17] forall c string, t string :: (c != clientID || t != topicName) ==> holds(l, c, t) == old(holds(l, c, t))
+
+// unsubscribe: a topic the client does not hold changes nothing and is not reported as removed; otherwise the client
+// stops holding it, the count goes down by one, and it is reported as removed exactly when nobody holds it any more.
+//@ func (*localSubStore).unsubscribe
+//@ props C17
+//@ requires [C17] lsOK(l)
+//@ modifies map(l.index), map(l.topics), allmaps(string, struct{})
+//@ ensures [C17] lsOK(l) && !holds(l, clientID, topicName)
+//@ ensures [C17] !old(holds(l, clientID, topicName)) ==> !remove && (forall t string :: has(l.topics, t) == old(has(l.topics, t)) && l.topics[t] == old(l.topics[t]))
+//@ ensures [C17] old(holds(l, clientID, topicName)) ==> remove == !has(l.topics, topicName) && (old(has(l.topics, topicName)) && old(l.topics[topicName]) > 1 ==> has(l.topics, topicName) && l.topics[topicName] == old(l.topics[topicName]) - 1) && (!(old(has(l.topics, topicName)) && old(l.topics[topicName]) > 1) ==> !has(l.topics, topicName))
+//@ ensures [C17] forall t string :: t != topicName ==> has(l.topics, t) == old(has(l.topics, t)) && l.topics[t] == old(l.topics[t])
+//@ ensures [C17] forall c string, t string :: (c != clientID || t != topicName) ==> holds(l, c, t) == old(holds(l, c, t))
+
+// sessionMgr.add (the Hello handshake of a peer): the stream is resumed — next expected event id kept, nothing
+// replaced — exactly when a session of that node with the same session id exists; otherwise (unknown node, or the
+// node came back with another session id: it restarted) a clean start: a new session with that id, nothing seen, next id 0.
+//@ func newLRUCache trusted
+//@ ensures result != nil && isfresh(result)
+//@ func (*sessionMgr).add
+//@ props C17
+//@ requires [C17] s != nil && s.sessions != nil && (forall n string :: has(s.sessions, n) ==> s.sessions[n] != nil)
+//@ modifies heap
+//@ preserves all(session.*)
+//@ ensures [C17] cleanStart == !(old(has(s.sessions, nodeName)) && old(s.sessions[nodeName].id) == id)
+//@ ensures [C17] !cleanStart ==> nextID == old(s.sessions[nodeName].nextEventID) && s.sessions[nodeName] == old(s.sessions[nodeName])
+//@ ensures [C17] cleanStart ==> nextID == 0 && has(s.sessions, nodeName) && s.sessions[nodeName] != nil && isfresh(s.sessions[nodeName]) && s.sessions[nodeName].id == id && s.sessions[nodeName].nodeName == nodeName && s.sessions[nodeName].nextEventID == 0
+//@ ensures [C17] forall n string :: n != nodeName ==> has(s.sessions, n) == old(has(s.sessions, n)) && s.sessions[n] == old(s.sessions[n])
